@@ -51,9 +51,12 @@ def spike(tier, carrier='list_none', min_n=1):
                     cls = 'zero-threshold' if (s == 0 or f == 0) else method
                     c = Case('spike_test', [data_input('inp', pat, carrier)], kw, n=n, pat={'inp': pat}, meta={'class': cls})
                     yield c, specs.Spike(c)
-    c = Case('spike_test', [data_input('inp', 'ppp', carrier)], dict(suspect_threshold=Fr(1), fail_threshold=Fr(2), method='median'),
-             n=3, pat={'inp': 'ppp'}, meta={'class': 'unknown-method'})
-    yield c, specs.Spike(c)
+    # an unknown method name is rejected whatever the series looks like (also where no spike can be computed)
+    for pat in ('ppp', 'pp', 'p', '', 'pm', 'pmpp'):
+        for method in ('median', 'Average', 'avg', '', None):
+            c = Case('spike_test', [data_input('inp', pat, carrier)], dict(suspect_threshold=Fr(1), fail_threshold=Fr(2), method=method),
+                     n=len(pat), pat={'inp': pat}, meta={'class': 'unknown-method'})
+            yield c, specs.Spike(c)
 
 
 def rate_of_change(tier, carrier='list_none', tcarrier='dt64'):
